@@ -39,6 +39,11 @@ func createEndpointSliceHandlers(lbc *LoadBalancerController) cache.ResourceEven
 			if !reflect.DeepEqual(old, cur) {
 				nl.Debugf(lbc.Logger, "EndpointSlice %v changed, syncing", cur.(*discovery_v1.EndpointSlice).Name)
 				lbc.AddSyncQueue(cur)
+				oldEndpointSlice, curEndpointSlice := old.(*discovery_v1.EndpointSlice), cur.(*discovery_v1.EndpointSlice)
+				if oldEndpointSlice.Labels[discovery_v1.LabelServiceName] != curEndpointSlice.Labels[discovery_v1.LabelServiceName] {
+					// the EndpointSlice left the Service it belonged to: that Service lost its endpoints
+					lbc.enqueueServiceOfEndpointSlice(oldEndpointSlice)
+				}
 			}
 		},
 	}
